@@ -1360,6 +1360,29 @@ class FileBuilder:
         suboperations of the specified cached ``ComplexOperation``
         entry.
         """
+        # The files for which we have called _build_dirs.started_building_file
+        started_filenames = []
+        try:
+            self._apply_cached_suboperations_helper(
+                operation, started_filenames)
+        except Exception:
+            # We are not going to reuse the cached operation after all. Undo
+            # the reservations for all of the files we have handled so far,
+            # not just for the one that resulted in the exception.
+            for filename in reversed(started_filenames):
+                self._build_dirs.error_building_file(filename)
+            raise
+
+    def _apply_cached_suboperations_helper(self, operation, started_filenames):
+        """Implementation of ``_apply_cached_suboperations``.
+
+        Arguments:
+            operation (ComplexOperation): The cached operation.
+            started_filenames (list<str>): A list to which to append the
+                files for which we have called
+                ``_build_dirs.started_building_file``, including those
+                in nested operations.
+        """
         for suboperation in operation.suboperations:
             if (isinstance(suboperation, BuildFileOperation) and
                     not suboperation.raised):
@@ -1369,14 +1392,13 @@ class FileBuilder:
                     locked_created_dirs = (
                         self._build_dirs.started_building_file(
                             filename, created_dirs))
-                try:
-                    self._ensure_dirs_case(locked_created_dirs)
-                    self._apply_cached_suboperations(suboperation)
-                except Exception:
-                    self._build_dirs.error_building_file(filename)
-                    raise
+                started_filenames.append(filename)
+                self._ensure_dirs_case(locked_created_dirs)
+                self._apply_cached_suboperations_helper(
+                    suboperation, started_filenames)
             elif isinstance(suboperation, ComplexOperation):
-                self._apply_cached_suboperations(suboperation)
+                self._apply_cached_suboperations_helper(
+                    suboperation, started_filenames)
 
     def _dirs_to_make(self, dir_, created_files):
         """Return the parents of ``dir_`` needed to create to make ``dir_``.
